@@ -113,8 +113,40 @@ def run_seq(ops, maxlen, impl='diskcache', via='Deque', seed=0, tid=1):
             d.cache.reset('size_limit', 150 * 1024)
         ev = []
         cur = maxlen
+        blocks = []                    # open transact() blocks (diskcache) / saved copies (stdlib)
         for op in ops:
             name, a = op['op'], dict(op.get('a', {}))
+            if name in ('txbegin', 'txend', 'txraise'):
+                ret = R('none')
+                try:
+                    if name == 'txbegin':
+                        if impl == 'stdlib':
+                            blocks.append(collections.deque(d, maxlen=d.maxlen))
+                        else:
+                            cm = d.transact()
+                            cm.__enter__()
+                            blocks.append(cm)
+                    elif blocks and name == 'txend':
+                        b = blocks.pop()
+                        if impl != 'stdlib':
+                            b.__exit__(None, None, None)
+                    elif blocks:
+                        # an exception raised inside a block passes through every enclosing block
+                        exc = RuntimeError('abort')
+                        while blocks:
+                            b = blocks.pop()
+                            if impl == 'stdlib':
+                                d = b
+                            else:
+                                try:
+                                    if b.__exit__(RuntimeError, exc, None):
+                                        ret = R('swallowed')
+                                except RuntimeError:
+                                    pass
+                except Exception as exc:       # the library failed at block entry / exit: a result the specification judges
+                    ret = R(type(exc).__name__)
+                ev.append({'op': name, 'a': a, 'ret': ret, 'items': items_of(d, vm)})
+                continue
             if name == 'reopen_same':
                 name, a = 'reopen', {'m': cur}
             if name == 'setmaxlen':
@@ -166,9 +198,32 @@ def run_seq(ops, maxlen, impl='diskcache', via='Deque', seed=0, tid=1):
 VALS = [1, 2, 3, 1, 2, 100001, 101000, 200000 + 40 * 100 + 1, 200000 + 36 * 100 + 2]
 
 
-def random_ops(rng, n, maxlen, lifecycle=True):
+def block_ops(rng, n, maxlen):
+    """histories with transact() blocks (inline values only: file-backed values inside blocks meet the known finding F06)"""
+    ops, depth = [], 0
+    for o in random_ops(rng, n, maxlen, lifecycle=False, ints=True):
+        r = rng.random()
+        if depth == 0 and r < 0.25:
+            ops.append({'op': 'txbegin', 'a': {}})
+            depth = 1
+        elif depth == 1 and r < 0.1:
+            ops.append({'op': 'txbegin', 'a': {}})
+            depth = 2
+        elif depth > 0 and r < 0.4:
+            e = rng.choice(['txend', 'txraise'])
+            ops.append({'op': e, 'a': {}})
+            depth = depth - 1 if e == 'txend' else 0
+        ops.append(o)
+    while depth:
+        e = rng.choice(['txend', 'txraise'])
+        ops.append({'op': e, 'a': {}})
+        depth = depth - 1 if e == 'txend' else 0
+    return ops
+
+
+def random_ops(rng, n, maxlen, lifecycle=True, ints=None):
     ops = []
-    ints = rng.random() < 0.4
+    ints = rng.random() < 0.4 if ints is None else ints
     VALS_ = [1, 2, 3] if ints else VALS
     for _ in range(n):
         r = rng.random()
